@@ -51,7 +51,9 @@ func (m MIDIWriter) Write(w midix.Writer, instances []op.Instance) error {
 
 		args.update(instance)
 		// apply control changes
-		args.writeWhenUpdated(w)
+		if err := args.writeWhenUpdated(w); err != nil {
+			return fmt.Errorf("%w: instance[%d]", err, i)
+		}
 
 		var value float64
 		for _, v := range instance.Values {
